@@ -893,6 +893,40 @@ func auxBasisSize(p rlwe.Parameters) int {
 	return nbQiMul
 }
 
+// VECSINGLE control: the constant term read through the single-polynomial accessor although a mapping may be present
+type coefGetter struct{}
+
+func (coefGetter) GetSingleCoefficient(p []uint64, k int) uint64 { return p[k] }
+func (coefGetter) GetVectorCoefficient(ps [][]uint64, k int) []uint64 {
+	r := make([]uint64, len(ps))
+	for i := range ps {
+		r[i] = ps[i][k]
+	}
+	return r
+}
+
+func constTerm(g coefGetter, ps [][]uint64, mapping map[int][]int) (single uint64, vec []uint64) {
+	single = g.GetSingleCoefficient(ps[0], 0)
+	if mapping != nil {
+		vec = g.GetVectorCoefficient(ps, 0)
+	}
+	return
+}
+
+// INITIDX control: the accumulator is initialised in iteration 0 only if bit 0 is set
+func sumBits(n int, xs []uint64) (acc uint64) {
+	for i, j := 0, n; j > 0; i, j = i+1, j>>1 {
+		if j&1 == 1 {
+			if i == 0 {
+				acc = xs[i]
+			} else {
+				acc += xs[i]
+			}
+		}
+	}
+	return
+}
+
 // INDEG control: the first two components of the input, whatever its degree
 func (e fixEvaluator) SumTwo(ctIn, opOut *rlwe.Ciphertext) {
 	e.r.Add(ctIn.Value[0], ctIn.Value[1], opOut.Value[0])
